@@ -14,6 +14,7 @@ mod c06;
 mod c07;
 mod c08;
 mod c10;
+mod c14;
 mod c16;
 mod fixture;
 mod core;
@@ -31,7 +32,7 @@ mod workload;
 use crate::core::{Property, Tier};
 
 fn registry() -> Vec<Property> {
-    vec![c01::PROP, c02::PROP, c03::PROP, c04::PROP, c05::PROP, c06::PROP, c07::PROP, c08::PROP, c10::PROP, c16::PROP]
+    vec![c01::PROP, c02::PROP, c03::PROP, c04::PROP, c05::PROP, c06::PROP, c07::PROP, c08::PROP, c10::PROP, c14::PROP, c16::PROP]
 }
 
 fn find(id: &str) -> Property {
